@@ -7,7 +7,7 @@ CFG = dict(
     rule="corpus + 38 boundary families (event polled before the acceptance and still returned afterwards, for every event type and min-confirmations setting; event polled while the record was expired; accept lower/equal/higher, perform then re-accept, min-confirmations edge, older/newer-block "
          "events, duplicated/late events, expiry at the exact nanosecond, expiry refreshed by an event, restart, life-cycle per event "
          "type, unknown upkeep type, window 0, default 20 min window, event before accept, visited entry outliving the record, "
-         "plug-in any-of reports, plug-in restart) + VERIF_N random histories of 5-60 operations over 1-4 work ids from one PRNG "
+         "plug-in any-of reports, plug-in reports in mixed states with the pending / acceptable upkeep in every position, plug-in restart) + VERIF_N random histories of 5-60 operations over 1-4 work ids from one PRNG "
          "+ 5 deterministic poller/accept race cases; a history is non-trivial when some ShouldTransmit answered true and some poll "
          "delivered events; distinct = structural hash of the generator-form case",
     trusted=["scripted TransmitEventProvider (returns the scripted batch for k polls, logs each delivery with its virtual time)",
